@@ -231,6 +231,36 @@ def overlay_sweep(col, sig0, background):
     col.exhaustive.setdefault(sub, True)
 
 
+def restricted_sweep(col, fmt):
+    """allowed_formats = [F] and [F, raw] on F's own content (valid image,
+    bare signature, foreign content) with tiny reads, format sampled before
+    the first read and after every read."""
+    from vcheck import imggen
+    sub = 'restricted'
+    contents = [{'base': [fmt, {}], 'kind': 'valid', 'cut': 3000},
+                {'overlay': dict(length=700, background='zero', sigs=[fmt]),
+                 'kind': 'polyglot'},
+                {'overlay': dict(length=700, background='random', sigs=[]),
+                 'kind': 'polyglot'},
+                {'base': ['raw', dict(length=700, kind='ascii')],
+                 'kind': 'valid'}]
+    if fmt in ('vhdx', 'iso'):
+        contents[0] = {'base': [fmt, {}], 'kind': 'valid'}
+    for content in contents:
+        for allowed in ([fmt], [fmt, 'raw'], ['raw', fmt, 'qcow2']):
+            for k in (1, 3, 7, 8, 9, 512, 4096):
+                from vcheck import imgstrat
+                n = len(imgstrat.realize(content)[0])
+                if n / k > 5000:
+                    continue
+                for mode in ('read', 'iter'):
+                    check_detection(col, {'content': content,
+                                          'allowed': allowed,
+                                          'schedule': ['fixed', k],
+                                          'mode': mode}, sub)
+    col.exhaustive.setdefault(sub, True)
+
+
 def detect_sweep(col, background):
     """detect_file_format on every signature subset at three lengths
     (below / above the point where every inspector is complete)."""
@@ -326,6 +356,8 @@ def tasks(tier, seed):
                             background=bg))
     for bg in ('zero', 'random', 'text'):
         out.append(Task('detect_file', detect_sweep, background=bg))
+    for fmt in sigmodel.NON_RAW:
+        out.append(Task('restricted', restricted_sweep, fmt=fmt))
     if tier == 'quick':
         plan = [(SMALL + ('iso',), 70000, 500, 5), (('vhdx',), 400000, 60,
                                                      2)]
